@@ -406,6 +406,7 @@ const (
 	opSumPNil
 	opSumNilQ
 	opPEM
+	opSumPP
 )
 
 type op struct {
@@ -427,6 +428,8 @@ func (o op) String() string {
 		return "p=p.Sum(nil)"
 	case opSumNilQ:
 		return "p=(nil).Sum(q)"
+	case opSumPP:
+		return "p=p.Sum(p)"
 	}
 	return "p.AppendCertsFromPEM(" + pemInputs[o.arg].String() + ")"
 }
@@ -740,6 +743,7 @@ func main() {
 		for i := range pemInputs {
 			ops = append(ops, op{opPEM, i})
 		}
+		ops = append(ops, op{kind: opSumPP}) // last, so that the indices of older witnesses keep their meaning
 
 		// CERTIFICATE block with headers: statement silent -> probe, then demand consistency.
 		{
@@ -749,7 +753,7 @@ func main() {
 			c.Set("certificate_block_with_pem_header", map[bool]string{true: "added (accepted: statement silent)", false: "skipped (accepted: statement silent)"}[hdrAdds])
 		}
 
-		c.Rule(fmt.Sprintf("explicit-state BFS (two passes, same objects and oracles) over histories on a pair of real pools (p,q); pass 'full': all %d operations = p.AddCert(u), q.AddCert(u) for u in {A,A2,B,B2,C,D}, p=p.Sum(q), p=q.Sum(p), p=p.Sum(nil), p=(nil).Sum(q), p.AppendCertsFromPEM(x) for all %d concatenations of <=3 blocks of {cert A, cert B, truncated CERTIFICATE, PRIVATE KEY, CERTIFICATE with header, garbage line}; pass 'deep': the same with only the PEM inputs of <=1 block, searched deeper; state = (ordered fingerprint list of p, of q) read from the pool internals and checked against the three index maps; a state is distinct by that pair of lists; every history ending in a Sum is followed by an aliasing probe", len(ops), len(pemInputs)))
+		c.Rule(fmt.Sprintf("explicit-state BFS (two passes, same objects and oracles) over histories on a pair of real pools (p,q); pass 'full': all %d operations = p.AddCert(u), q.AddCert(u) for u in {A,A2,B,B2,C,D}, p=p.Sum(q), p=q.Sum(p), p=p.Sum(nil), p=(nil).Sum(q), p=p.Sum(p), p.AppendCertsFromPEM(x) for all %d concatenations of <=3 blocks of {cert A, cert B, truncated CERTIFICATE, PRIVATE KEY, CERTIFICATE with header, garbage line}; pass 'deep': the same with only the PEM inputs of <=1 block, searched deeper; state = (ordered fingerprint list of p, of q) read from the pool internals and checked against the three index maps; a state is distinct by that pair of lists; every history ending in a Sum is followed by an aliasing probe", len(ops), len(pemInputs)))
 		c.Assume("reference = Go slice + map keyed by crypto/sha256 of the DER; PEM expectations follow from the construction of each input (cross-checked with encoding/pem + crypto/x509 at start)",
 			"signature truth = crypto/ed25519, crypto/ecdsa, crypto/rsa over RawTBSCertificate parsed by crypto/x509 (8x8 matrix, asserted to be the intended one)",
 			"CERTIFICATE blocks carrying PEM headers: either skipped or added is accepted (statement silent), consistency demanded",
@@ -836,7 +840,7 @@ func main() {
 					case opAddQ:
 						dup = !rq.add(S.fp[op.arg])
 						q.AddCert(o.certs[op.arg])
-					case opSumPQ, opSumQP, opSumPNil, opSumNilQ:
+					case opSumPQ, opSumQP, opSumPNil, opSumNilQ, opSumPP:
 						grave = append(grave, old{p, rp.clone(), i})
 						var np *x509.CertPool
 						var nr *ref
@@ -849,11 +853,15 @@ func main() {
 							np, nr = p.Sum(nil), union(rp, nil)
 						case opSumNilQ:
 							np, nr = (*x509.CertPool)(nil).Sum(q), union(nil, rq)
+						case opSumPP:
+							np, nr = p.Sum(p), union(rp, rp) // both operands are the receiver itself
 						}
 						if last {
 							switch {
 							case op.kind == opSumPNil || op.kind == opSumNilQ:
 								h["Sum: with nil"]++
+							case op.kind == opSumPP:
+								h["Sum: of a pool with itself"]++
 							case len(nr.order) < len(rp.order)+len(rq.order):
 								h["Sum: overlapping operands"]++
 							default:
@@ -1039,6 +1047,8 @@ func main() {
 		pass("full", all, depthFull)
 		if !c.TimeUp() {
 			pass("deep", small, depthDeep)
+		} else {
+			c.Incomplete(fmt.Sprintf("budget hit after the full pass: the deep pass (%d operations to depth %d) was not run", len(small), depthDeep))
 		}
 		nd := 0
 		distinct.Range(func(_, _ any) bool { nd++; return true })
